@@ -153,7 +153,11 @@ func validlySigned(el *etree.Element, roots []*x509.Certificate, now time.Time) 
 	}
 	// a KeyInfo that names no certificate is not key material we trust or reject by: drop it (verification then falls back to the configured root)
 	for _, s := range childNS(det, samlgen.NSDsig, "Signature") {
-		if len(findNS(s, samlgen.NSDsig, "X509Certificate")) == 0 {
+		ncert := 0
+		for _, ki := range childNS(s, samlgen.NSDsig, "KeyInfo") { // only the signature's own KeyInfo, not certificates elsewhere under it (ds:Object)
+			ncert += len(findNS(ki, samlgen.NSDsig, "X509Certificate"))
+		}
+		if ncert == 0 {
 			for _, ki := range childNS(s, samlgen.NSDsig, "KeyInfo") {
 				s.RemoveChild(ki)
 			}
@@ -909,6 +913,40 @@ func c01Ops(p *c01Pool) []c01Op {
 		s.CreateAttr("xmlns:x", "urn:example:foreign")
 		return true
 	})
+
+	// 7b. prefix games across the whole document: the library re-serialises elements with every prefix re-declared on the root
+	// (elementToBytes), so a prefix bound differently in two places can make the two parsers (etree / encoding/xml) disagree.
+	for _, where := range []string{"first", "last"} {
+		where := where
+		add("ns/evil-assertion-under-prefix-x-bound-to-foreign-on-Response/"+where, func(root *etree.Element, p *c01Pool) bool {
+			r := theResponse(root)
+			if r == nil {
+				return false
+			}
+			e := p.unsignedE.Copy()
+			e.Space = "x" // only the element itself: its children keep the saml prefix declared on it
+			r.CreateAttr("xmlns:x", "urn:example:foreign")
+			if where == "first" {
+				r.InsertChildAt(0, e)
+			} else {
+				r.AddChild(e)
+			}
+			return true
+		})
+	}
+	for _, pfx := range []struct{ prefix, uri string }{{"x", samlgen.NSAssertion}, {"saml", "urn:example:foreign"}, {"samlp", "urn:example:foreign"}, {"ds", "urn:example:foreign"}} {
+		pfx := pfx
+		add("ns/trailing-element-rebinds-prefix-"+pfx.prefix, func(root *etree.Element, p *c01Pool) bool {
+			r := theResponse(root)
+			if r == nil {
+				return false
+			}
+			pad := etree.NewElement(pfx.prefix + ":Pad")
+			pad.CreateAttr("xmlns:"+pfx.prefix, pfx.uri)
+			r.AddChild(pad)
+			return true
+		})
+	}
 
 	// 8. encryption by the attacker to the SP's public certificate
 	encryptEl := func(x *etree.Element, pre, post string, seed string) *etree.Element {
